@@ -1,6 +1,6 @@
 (* C17 - heartbeats: sent when idle, enforced on the server, off when 0.
    This file only pins statements. *)
-From Amq Require Import Lib.Base Gen.Consts Model.Heartbeat Proofs.Heartbeat Model.Wire Model.Frames Model.OutBuf Model.Collector Model.Slots Model.Core Proofs.CoreMore Lib.RsResult Gen.SrcFire Proofs.HeartbeatSrc Lib.RsVal Lib.RsStr Gen.SrcTimers Proofs.TimersSrc.
+From Amq Require Import Lib.Base Gen.Consts Model.Heartbeat Proofs.Heartbeat Model.Wire Model.Frames Model.OutBuf Model.Collector Model.Slots Model.Core Proofs.CoreMore Lib.RsResult Gen.SrcFire Proofs.HeartbeatSrc Lib.RsVal Lib.RsStr Gen.SrcTimers Proofs.TimersSrc Gen.SrcHbPass Proofs.HbPassSrc.
 
 (* NOT EARLY: for every trace of reads and timer events, if the server is declared dead at time t then nothing was read during the last (2h - 5 ms) before t: the most recent read (or the start) is at least that old *)
 Theorem C17_not_early : forall (evs : list rx_ev) (h : hb) (t : N) (h' : hb), rx_run h evs = (Some t, h') -> mono (h_last h) evs -> exists last : N, last + h_interval h <= t + fudge_ms /\ h_last h' = last /\ (last = h_last h \/ In (RxRead last) evs).
@@ -70,6 +70,14 @@ Proof. exact timers_source_is_model. Qed.
 Theorem C17_start_fire_source_is_model : forall (timer : val) (h : N), let s1 := fst (gen_HeartbeatTimers_start ext_model2 (timers0 timer) (VN h)) in v_field "timer" s1 = timer /\ snd (gen_HeartbeatTimers_fire_rx ext_model2 s1) = VC "fire" [VC "Heartbeat" [VC "HeartbeatKind::Rx" []; VN (c_max_missed_server_heartbeats * h)]; timer] /\ snd (gen_HeartbeatTimers_fire_tx ext_model2 s1) = VC "fire" [VC "Heartbeat" [VC "HeartbeatKind::Tx" []; VN h]; timer] /\ snd (gen_HeartbeatTimers_fire_rx ext_model2 (timers0 timer)) = VC "fire" [VStuck; timer].
 Proof. exact start_fire_source_is_model. Qed.
 
+(* THE MODEL IS THE SOURCE: Inner::process_heartbeat_timers of src/io_loop/mod.rs as translated from the source text on every run (Gen/SrcHbPass.v, tools/rs2sm.py: the `while let` over Timer::poll is a recursive function on fuel) is Model/Core.v's heartbeat_timers - the function C17_missed_not_masked / C17_pass_ok are about - for EVERY sequence of entries the timer yields (rx / tx, expired or stale, any order, any length) and every out-buffer, sealed or not: same result, same out-buffer, same entries left in the timer. ext_st_model is Timer::poll (the next due kind), HeartbeatTimers::fire_rx / fire_tx (the verdict for that entry: C17_start_fire_source_is_model, C17_fire_source_is_model) and SealableOutputBuffer::push_heartbeat (Model/OutBuf.v) *)
+Theorem C17_pass_source_is_model : forall (fired : list (hbkind * bool)) (c : core), gen_Inner_process_heartbeat_timers ext_st_model (S (Datatypes.length fired)) (enc_self fired (c_out c)) = (enc_self (hb_rest fired) (c_out (snd (heartbeat_timers fired c))), enc_outcome (fst (heartbeat_timers fired c))).
+Proof. exact pass_source_is_model. Qed.
+
+(* C17 AS A THEOREM ABOUT THE TRANSLATED CODE: an expired receive entry ends the translated pass with MissedServerHeartbeats whatever the timer yields before it in that pass - stale entries, send entries with or without output pending *)
+Theorem C17_pass_source_not_masked : forall (pre rest : list (hbkind * bool)) (c : core), (forall (k : hbkind) (b : bool), In (k, b) pre -> (k, b) <> (HbRx, true)) -> snd (gen_Inner_process_heartbeat_timers ext_st_model (S (Datatypes.length (pre ++ (HbRx, true) :: rest))) (enc_self (pre ++ (HbRx, true) :: rest) (c_out c))) = VC "Err" [VC "Error::MissedServerHeartbeats" []].
+Proof. exact pass_source_not_masked. Qed.
+
 (* non-vacuity: h = 1: a read at 900 ms, silence afterwards, timer events at 2000 and 2900 *)
 Example C17_example :
   match start_heartbeats 0 1 with
@@ -95,6 +103,8 @@ Check C17_pass_ok : forall (fired : list (hbkind * bool)) (c : core), (forall (k
 Check C17_fire_source_is_model : forall last interval deadline now : N, last <= now -> let h := {| h_last := last; h_interval := interval; h_deadline := deadline |} in gen_Heartbeat_fire interval (now - last) = RsOk "Heartbeat_fire" [("result", if fst (hb_fire now h) then 1 else 0); ("timer.set_timeout#0", h_deadline (snd (hb_fire now h)) - now)].
 Check C17_timers_source_is_model : forall (timer : val) (h : N), gen_RxTxHeartbeat_new ext_model timer (VN h) = VR [("rx", VC "Heartbeat" [VC "HeartbeatKind::Rx" []; VN (c_max_missed_server_heartbeats * h)]); ("tx", VC "Heartbeat" [VC "HeartbeatKind::Tx" []; VN h])].
 Check C17_start_fire_source_is_model : forall (timer : val) (h : N), let s1 := fst (gen_HeartbeatTimers_start ext_model2 (timers0 timer) (VN h)) in v_field "timer" s1 = timer /\ snd (gen_HeartbeatTimers_fire_rx ext_model2 s1) = VC "fire" [VC "Heartbeat" [VC "HeartbeatKind::Rx" []; VN (c_max_missed_server_heartbeats * h)]; timer] /\ snd (gen_HeartbeatTimers_fire_tx ext_model2 s1) = VC "fire" [VC "Heartbeat" [VC "HeartbeatKind::Tx" []; VN h]; timer] /\ snd (gen_HeartbeatTimers_fire_rx ext_model2 (timers0 timer)) = VC "fire" [VStuck; timer].
+Check C17_pass_source_is_model : forall (fired : list (hbkind * bool)) (c : core), gen_Inner_process_heartbeat_timers ext_st_model (S (Datatypes.length fired)) (enc_self fired (c_out c)) = (enc_self (hb_rest fired) (c_out (snd (heartbeat_timers fired c))), enc_outcome (fst (heartbeat_timers fired c))).
+Check C17_pass_source_not_masked : forall (pre rest : list (hbkind * bool)) (c : core), (forall (k : hbkind) (b : bool), In (k, b) pre -> (k, b) <> (HbRx, true)) -> snd (gen_Inner_process_heartbeat_timers ext_st_model (S (Datatypes.length (pre ++ (HbRx, true) :: rest))) (enc_self (pre ++ (HbRx, true) :: rest) (c_out c))) = VC "Err" [VC "Error::MissedServerHeartbeats" []].
 
 Print Assumptions C17_not_early.
 Print Assumptions C17_prompt.
@@ -113,4 +123,6 @@ Print Assumptions C17_pass_ok.
 Print Assumptions C17_fire_source_is_model.
 Print Assumptions C17_timers_source_is_model.
 Print Assumptions C17_start_fire_source_is_model.
+Print Assumptions C17_pass_source_is_model.
+Print Assumptions C17_pass_source_not_masked.
 Print Assumptions C17_example.
